@@ -10,7 +10,16 @@ import (
 func init() { generators["C20"] = genC20 }
 
 // c20Call emits one SimplifyFlatCoords case.
+var c20Calls int
+
 func c20Call(e *Emitter, stride int, thr float64, flat []float64) {
+	// one call in seven: the slice goes on for a few ordinates after the last whole point (a window
+	// that does not end on a point boundary): the whole points are what is simplified
+	c20Calls++
+	if c20Calls%7 == 3 && stride > 1 && len(flat) >= stride {
+		flat = append(append([]float64{}, flat...), []float64{8, -3.5, 1e9, 0, 7}[:1+c20Calls/7%(stride-1)]...)
+		e.tally("trailing-ordinates")
+	}
 	in := []float64(slot(0, flat...))
 	done := false
 	var idx, idx2 []int
